@@ -78,7 +78,11 @@ class assert_equal(RuntimeAssertionFeedback):
 
     def condition(self, left, right, exact_strings, delta):
         """ Tests if the left and right are equal """
-        return errors(left, right) or not equality_test(left.value, right.value, exact_strings, delta)
+        # Compare the values themselves: a proxied object that has an
+        # attribute called ``value`` would otherwise hand a plain operand's
+        # ``__eq__`` the proxy's own payload in place of that attribute
+        return errors(left, right) or not equality_test(unwrap_value(left.value), unwrap_value(right.value),
+                                                        exact_strings, delta)
 
 
 class assert_not_equal(RuntimeAssertionFeedback):
@@ -105,7 +109,7 @@ class assert_not_equal(RuntimeAssertionFeedback):
 
     def condition(self, left, right, exact_strings, delta):
         """ Tests if the left and right are not equal """
-        return equality_test(left.value, right.value, exact_strings, delta)
+        return equality_test(unwrap_value(left.value), unwrap_value(right.value), exact_strings, delta)
 
 
 class assert_less(RuntimeAssertionFeedback):
